@@ -188,3 +188,70 @@ def ob_b1(ctx: Ctx) -> Outcome:
 
 
 ob_b1.wants_all_cores = True
+
+
+# ---- B2: the CLI's `octave validate` agrees with the tool whenever it claims VALIDATED --------------------------------------------
+CLI_SCHEMAS = ["META", "SKILL", "DEBATE_TRANSCRIPT", "RPR", "NOPE", "meta", "../x"]
+CLI_DOCS = {
+    "plain": '===D===\nMETA:\n  TYPE::T\n  VERSION::"1"\nK::1\n===END===\n',
+    "rpr_valid": CONTENTS["valid"],
+    "rpr_bad": CONTENTS["bad_enum"],
+    "casefold": CONTENTS["casefold"],
+    "frontmatter": '---\nname: demo\ndescription: d\n---\n\n===S===\nMETA:\n  TYPE::SKILL\n  VERSION::"1.0"\nBODY::x\n===END===\n',
+    "unparseable": CONTENTS["unparseable"],
+}
+
+
+def _cli_one(item):
+    import re as _re
+
+    from click.testing import CliRunner
+
+    from octave_mcp.cli.main import cli
+    from octave_mcp.mcp.validate import ValidateTool
+
+    dname, schema, fix = item
+    d = _cwd()
+    p = os.path.join(d, f"cli{os.getpid()}.oct.md")
+    with open(p, "w", encoding="utf-8") as f:
+        f.write(CLI_DOCS[dname])
+    args = ["validate", p, "--schema", schema] + (["--fix"] if fix else [])
+    res = CliRunner().invoke(cli, args, catch_exceptions=True)
+    out = res.output or ""
+    problems = []
+    if res.exception is not None and not isinstance(res.exception, SystemExit):
+        problems.append(f"raised {type(res.exception).__name__}: {res.exception}")
+    m = _re.search(r"^validation_status: (\w+)$", out, _re.M)
+    st = m.group(1) if m else None
+    if st is not None and st not in STATUS:
+        problems.append(f"validation_status {st!r}")
+    if st == "VALIDATED":
+        tool = asyncio.run(ValidateTool().execute(content=CLI_DOCS[dname], schema=schema, fix=fix))
+        if tool.get("validation_status") != "VALIDATED":
+            problems.append(f"the CLI prints VALIDATED, octave_validate with the same content / schema / fix says {tool.get('validation_status')} {[e.get('code') for e in tool.get('validation_errors', [])]}")
+        if schema not in FOUND:
+            problems.append(f"VALIDATED for schema argument {schema!r} that names no schema")
+        canon = out[: m.start()].rstrip("\n") + "\n"
+        t2 = asyncio.run(ValidateTool().execute(content=canon, schema=schema))
+        if t2.get("status") == "success" and t2.get("validation_status") != "VALIDATED":
+            problems.append(f"the canonical text the CLI printed as VALIDATED re-validates as {t2.get('validation_status')}")
+    if st == "INVALID" and res.exit_code == 0:
+        problems.append("INVALID with exit code 0")
+    if problems:
+        return True, f"octave validate --schema {schema}{' --fix' if fix else ''} on {dname}: {problems[0]}", True, item
+    return False, "", True, item
+
+
+def replay_cli(item):
+    r = _cli_one(tuple(item))
+    return r[0], r[1] or "CLI and tool agree"
+
+
+def ob_b2(ctx: Ctx) -> Outcome:
+    items_ = [(d, s, f) for d in CLI_DOCS for s in CLI_SCHEMAS for f in (False, True)]
+    res = sweep(_cli_one, items_, 1, chunk=8)
+    wits = [Witness(what=text, input=list(item), key=f"cli|{item[1]}|{item[2]}", replay={"runner": "props.C10_b:replay_cli", "args": {"item": list(item)}}, confirmed=True) for item, text in res["failures"][:12]]
+    extra = dict(bound=f"`octave validate FILE --schema S [--fix]` for {len(CLI_DOCS)} documents x {len(CLI_SCHEMAS)} schema arguments x fix on/off through click's runner: status line well-formed; a VALIDATED claim is backed by octave_validate on the same input and on the printed canonical text; INVALID exits non-zero", evaluations=res["evaluations"], distinct_nontrivial=res["distinct"], rule="a case is one CLI invocation")
+    if wits:
+        return Outcome.refuted("real CLI", wits, **extra)
+    return Outcome.ok("real CLI", **extra)
